@@ -119,7 +119,13 @@ func execSW(in In, em *Emitter) {
 				continue
 			}
 			p, off := op.Bs("p"), op.I("off")
-			ev["p"], ev["off"] = bytesJ(p), off
+			// a relative offset beyond 2^30 lies beyond the end of every bounded section the generator builds
+			// (length < 2^29): it is logged as 2^30, which says exactly that, and stays inside TLC's integers
+			loff := off
+			if loff > 1<<30 {
+				loff = 1 << 30
+			}
+			ev["p"], ev["off"] = bytesJ(p), loff
 			abn = guard(func() { var m int; m, err = full.WriteAt(p, off); n = int64(m) })
 		case "Seek":
 			if full == nil {
@@ -270,6 +276,13 @@ func genC18(g *Gen) {
 				}
 				if at {
 					off = int64(r.Intn(200))
+				} else if r.Intn(8) == 0 { // far beyond the end: off + base wraps around int64 when base > 0
+					const maxInt64 = int64(^uint64(0) >> 1)
+					off = []int64{maxInt64, maxInt64 - 1, maxInt64 - base, maxInt64 - base + 1, maxInt64 - base - 1, maxInt64 - base + size,
+						1 << 62, 1 << 32, 1 << 31, 1<<31 - 1, maxInt64 - base + int64(r.Intn(100))}[r.Intn(11)]
+					if off < 0 {
+						off = maxInt64
+					}
 				}
 				l := r.Intn(12)
 				if d := size - off; d >= 0 && d < 60 && r.Intn(2) == 0 {
